@@ -79,6 +79,9 @@ def step (_ : Unit) (j : Json) : Except String (Unit × Drv.Out) := do
     if res == "panic" then
       o := o.mon "nopanic" "parse.panic" s!"ParseClientMsg panicked on {text.quote}"
       return ((), o)
+    if res == "unfilled" then
+      o := o.mon "filled" "parse.unfilled" s!"ParseClientMsg accepted {text.quote} but the message is not completely filled (a nil filter or a nil tag list)"
+      return ((), o)
     let model : DecE ClientMsg ← (match treeJ with
       | .null => pure (match labelOf text with | none => Except.error "not a client msg" | some _ => Except.error "invalid json")
       | tj => do pure (parseClientMsg text (← JT.ofJson tj)))
@@ -121,6 +124,9 @@ def step (_ : Unit) (j : Json) : Except String (Unit × Drv.Out) := do
       return ((), o)
     if text.trimAscii.toString == "null" && typ != "Event" then
       o := o.tag "toplevel-null"   -- unclaimed: a bare null is a no-op for Go's Unmarshaler convention
+      return ((), o)
+    if res == "ok" && fldD out "filled" == .bool false then
+      o := o.mon "filled" "decode.unfilled" s!"json.Unmarshal into {typ} accepted {text.quote} but the value is not completely filled (a nil filter or a nil tag list)"
       return ((), o)
     match treeJ with
     | .null => if res != "error" then o := o.diff s!"{typ}: impl={res} on text that is not valid JSON"
